@@ -85,8 +85,9 @@ func (e *cliEnv) run(caseDir string, cmd string, args []string, input string, si
 		argv = append(argv, "--no-cache")
 	}
 	outPath := ""
-	if sink == "file" {
-		outPath = filepath.Join(caseDir, fmt.Sprintf("out.%d", seqno))
+	if strings.HasPrefix(sink, "file") {
+		// "file" + extension: the extension selects the output format
+		outPath = filepath.Join(caseDir, fmt.Sprintf("out.%d%s", seqno, sink[4:]))
 		argv = append(argv, "-o", outPath)
 	}
 	// options first, then positional arguments
